@@ -55,7 +55,15 @@ TDExtras(t) ==
   ELSE {}
 \* a tuple is a value of an abstract Sequence[X] as well
 SeqExtras(t) == IF t.k = "coll" /\ t.c = "seq" THEN {VTuple(w.a) : w \in {x \in BaseValuesFor(t) : x.k = "list"}} ELSE {}
-ValuesFor(t) == BaseValuesFor(t) \cup TDExtras(t) \cup SeqExtras(t)
+\* an instance of a subclass is a value of the class (serialized with the fields of the DECLARED class), also inside containers
+SubclassesOf(c) == {s \in DOMAIN UClasses : s # c /\ IsSubclass(Ctx0, s, c)}
+RECURSIVE SubExtras(_)
+SubExtras(t) ==
+  CASE t.k = "obj" -> UNION {BaseValuesFor(TObj(s)) : s \in SubclassesOf(t.cls)}
+    [] t.k = "coll" /\ t.c = "list" /\ t.e.k = "obj" -> {VList(<<w>>) : w \in SubExtras(t.e)}
+    [] t.k = "map" /\ t.vt.k = "obj" -> {VDict(<< <<DStr("k"), w>> >>) : w \in SubExtras(t.vt)}
+    [] OTHER -> {}
+ValuesFor(t) == BaseValuesFor(t) \cup TDExtras(t) \cup SeqExtras(t) \cup SubExtras(t)
 
 \* the bijective fragment of C05: no asymmetric skip, no serialized method, no field dropped
 \* from the constructor, no type whose images are ambiguous
@@ -145,7 +153,7 @@ Run == /\ phase = "value"
        /\ phase' = "done" /\ UNCHANGED <<T, O, v>>
        /\ Emit => PrintT(ToJson([type |-> T, opts |-> O, value |-> v, expect |-> res',
                                  any |-> SerAny(Ctx(O), v),
-                                 bij |-> Bijective(T, {}) /\ v \notin TDExtras(T) \cup SeqExtras(T), ambig |-> Ambig(Ctx(O), T, {}),
+                                 bij |-> Bijective(T, {}) /\ v \notin TDExtras(T) \cup SeqExtras(T) \cup SubExtras(T), ambig |-> Ambig(Ctx(O), T, {}),
                                  gaps |-> {g \in {"flattened", "discriminated", "patoverlap", "propcount"} : UsesFeatureS(T, g, {})},
                                  saccept |-> IF HasSErr(res') THEN TRUE
                                              ELSE Validates(Ctx(O), "s", SchemaOf(Ctx(O), "s", T, <<>>, {}), AsData(res'))]))
@@ -157,14 +165,14 @@ Spec == Init /\ [][Next]_vars
 JsonOnly == phase = "done" => (HasSErr(res) \/ IsJson(res))
 
 \* C04: serialize(v) without a type equals serialize(type(v), v) for class instances
-AnyEqTyped == (phase = "done" /\ T.k = "obj" /\ v.k = "inst" /\ ~HasSErr(res)) => SerNorm(SerAny(Ctx(O), v)) = SerNorm(res)
+AnyEqTyped == (phase = "done" /\ T.k = "obj" /\ v.k = "inst" /\ v.cls = T.cls /\ ~HasSErr(res)) => SerNorm(SerAny(Ctx(O), v)) = SerNorm(res)
 
 \* C05: deserialize(T, serialize(T, v)) = v on the bijective fragment (same options both ways).
 \* exclude_none is outside the property (it quantifies over aliasers and additional_properties):
 \* a REQUIRED Optional field dropped by exclude_none cannot come back (class OR)
 RoundTrip ==
   \* ... and so are TypedDict values holding undeclared keys (dropped, or shadowed by a declared key)
-  (phase = "done" /\ Bijective(T, {}) /\ ~HasSErr(res) /\ ~O.exn /\ v \notin TDExtras(T) \cup SeqExtras(T)) =>
+  (phase = "done" /\ Bijective(T, {}) /\ ~HasSErr(res) /\ ~O.exn /\ v \notin TDExtras(T) \cup SeqExtras(T) \cup SubExtras(T)) =>
      LET back == RD(Ctx(O), T, <<>>, AsData(res)) IN
        IsUnspec(back) \/ (back.ok /\ ImageEq(Ctx(O), T, v, back.v))
 =============================================================================
